@@ -28,6 +28,19 @@ pub fn parse_u32_literal(
     ))
 }
 
+/// Parse the digits of a float literal (after removal of any `f` suffix or `rad(...)` wrapper).
+///
+/// (the lexer's regexes are looser than they look; e.g. `rad(1.5.5)` reaches this function)
+pub fn parse_f32_literal(
+    string: &str,
+    (l, r): (Location, Location),
+) -> Result<f32, crate::diagnostic::Diagnostic> {
+    string.parse().map_err(|err| error!(
+        message("bad float literal"),
+        primary(Span::from_locs(l, r), "{}", err)
+    ))
+}
+
 /// Parse a string literal, including surrounding quotes
 pub fn parse_string_literal(
     string: &str,
